@@ -934,6 +934,7 @@ func genC19(g *Gen) error {
 	}
 	sort.Slice(rp, func(i, j int) bool { return rp[i][0] < rp[j][0] })
 	g.PairList("requiredPrivileges", rp)
+	genC19Flows(g, p, routes)
 	g.Footer()
 	return nil
 }
